@@ -26,7 +26,9 @@ func (w *W) compareStates(where string, idx []int, states []nut07.ProofState) {
 		if s.State.String() != stName[p.St] {
 			prop := "C15"
 			if p.St == Spent {
-				prop = "C01,C15"
+				prop = "C01,C05,C15"
+			} else if p.St == Pending {
+				prop = "C05,C15"
 			}
 			w.viol(prop, fmt.Sprintf("state-check-state/model=%s/got=%s", stName[p.St], s.State), "%s: p%d reported %s, model %s", where, n, s.State, stName[p.St])
 		}
